@@ -59,6 +59,12 @@ structure HOpts where
   fixMinimizedValues : Bool := false
 deriving Repr
 
+/-- the number an extended value holds (`0` when it holds none) -/
+def finVal (v : XVal) : Rat :=
+  match v with
+  | .e (.fin q) => q
+  | _ => 0
+
 def finOr (v : XVal) (d : EVal) (f : Rat → Rat) : EVal :=
   match v with
   | .e (.fin t) => .fin (f t)
@@ -69,14 +75,14 @@ def finOr (v : XVal) (d : EVal) (f : Rat → Rat) : EVal :=
     `-inf` where the goal has no (finite) lower target -/
 def targetLo (g : Goal) (eps : Rat) (i : Nat) : EVal :=
   let nom := g.nomAt 0
-  let lo : Rat := match g.loAt 0 with | .e (.fin q) => q | _ => 0
+  let lo : Rat := finVal (g.loAt 0)
   if g.hasMin then
     finOr (g.mAt 0 i) .ninf fun t => ((if g.critical then 0 else eps * (lo - t)) + t - g.relaxation) / nom
   else .ninf
 
 def targetHi (g : Goal) (eps : Rat) (i : Nat) : EVal :=
   let nom := g.nomAt 0
-  let hi : Rat := match g.hiAt 0 with | .e (.fin q) => q | _ => 0
+  let hi : Rat := finVal (g.hiAt 0)
   if g.hasMax then
     finOr (g.MAt 0 i) .pinf fun t => ((if g.critical then 0 else eps * (hi - t)) + t + g.relaxation) / nom
   else .pinf
